@@ -425,8 +425,8 @@ def coq_case(lp, prog):
     if c not in seen and c in COLID:
       seen.add(c)
       order.extend((c, r) for r in rows)
-  term = '(%s, %s, %s, %s, %s, %s)' % (
-    core.coq_list(cols), core.coq_list(vals), core.coq_list([coq_cell(c) for c in lp.dirty0]),
+  term = '(%s, %s, %s, %s, %s, %s, %s)' % (
+    core.coq_list(cols), core.zlist(rows), core.coq_list(vals), core.coq_list([coq_cell(c) for c in lp.dirty0]),
     core.coq_list(its), core.coq_list(finals), core.coq_list([coq_cell(c) for c in order]))
   return term, stats
 
@@ -448,3 +448,17 @@ def new_traced_doc(prog, dvals, rvals, priority=None):
   G.apply(e, [table_action(prog)])
   G.apply(e, [rows_action(dvals, rvals)])
   return e, loops
+
+
+def inject_order(e, priority):
+  """Only the permutation of the work items (no tracing): lookups first, then by priority(node)."""
+  if not hasattr(E.Engine, '_make_sorted_work_items'):
+    raise core.TieBroken('instrumentation point Engine._make_sorted_work_items is gone')
+  o_sort = e._make_sorted_work_items
+  def sort_items(nodes):
+    items = o_sort(nodes)
+    lk = [w for w in items if w.node.col_id.startswith('#lookup')]
+    other = [w for w in items if not w.node.col_id.startswith('#lookup')]
+    key = lambda w: (priority(w.node), w.node)
+    return sorted(other, key=key, reverse=True) + sorted(lk, key=key, reverse=True)
+  e._make_sorted_work_items = sort_items
